@@ -1,5 +1,6 @@
 #!/usr/bin/env python3
-"""Mutation sweep: which small behaviour changes of /repo survive the existing suite, and which of
+"""Mutation sweep (snapshots /tmp/sweep_repo2, /tmp/sweep_specs2, /tmp/gsw2 are frozen copies of /repo, /verif/specs and bin/govc so that
+editing contracts while the sweep runs cannot change its verdicts): which small behaviour changes of /repo survive the existing suite, and which of
 those make a previously discharged obligation fail (stage 1, `govc verify`)?  Survivors that no
 obligation notices are listed for stage 2 (bounded stand-ins, `stage2.py`) and manual triage.
 usage: sweep.py <muts.jsonl> <results.jsonl> [workers]   (resumable)"""
@@ -12,7 +13,7 @@ done = set()
 if os.path.exists(resf):
     for l in open(resf):
         done.add(json.loads(l)['id'])
-base = json.load(open('/verif/mutsweep/base_verify.json'))
+base = json.load(open('/verif/mutsweep/base_verify2.json'))
 def failing(r):
     s = set()
     for f in r:
@@ -41,19 +42,19 @@ def worker(k):
         except queue.Empty: break
         shutil.rmtree(d, ignore_errors=True)
         os.makedirs(d, exist_ok=True)
-        subprocess.run(['rsync', '-a', '--exclude', '.git', '/tmp/sweep_repo/', d + '/repo/'], check=True)
+        subprocess.run(['rsync', '-a', '--exclude', '.git', '/tmp/sweep_repo2/', d + '/repo/'], check=True)
         p = os.path.join(d, 'repo', m['file'])
         src = open(p, 'rb').read()
         open(p, 'wb').write(src[:m['start']] + m['repl'].encode() + src[m['end']:])
         res = {'id': m['id'], 'desc': m['desc'], 'fn': m['fn'], 'line': m['line']}
-        rc, out = run(['go', 'build', './...'], d + '/repo', 300)
+        rc, out = (0, '') if m.get('suite') == 'passed' else run(['go', 'build', './...'], d + '/repo', 300)
         if rc != 0: res['status'] = 'nocompile'
         else:
-            rc, out = run(['go', 'test', '-vet=off', '-count=1', '-timeout', '150s', './...'], d + '/repo', 400)
+            rc, out = (0, '') if m.get('suite') == 'passed' else run(['go', 'test', '-vet=off', '-count=1', '-timeout', '150s', './...'], d + '/repo', 400)
             if rc != 0: res['status'] = 'killed-by-suite'
             else:
                 js = d + '/v.json'
-                rc, out = run(['/tmp/govc.sweep', 'verify', '-repo', d + '/repo', '-j', '4', '-timeout', '10000', '-json', js], '/verif', 900)
+                rc, out = run(['/tmp/gsw2', 'verify', '-repo', d + '/repo', '-specs', '/tmp/sweep_specs2', '-j', '4', '-timeout', '10000', '-json', js], '/verif', 900)
                 try:
                     r = json.load(open(js))
                     f = failing(r)
